@@ -1,4 +1,34 @@
 // further operations (compiler dumps through the cfg(rbpf_verif) hooks, assembler/disassembler, API histories)
-pub fn dispatch(op: &str, _req: &json::JsonValue) -> json::JsonValue {
-    json::object! { "status": "unknown_op", "op": op }
+use std::panic;
+
+fn unhex(s: &str) -> Vec<u8> {
+    let b = s.as_bytes();
+    (0..b.len() / 2).map(|i| u8::from_str_radix(std::str::from_utf8(&b[2 * i..2 * i + 2]).unwrap(), 16).unwrap()).collect()
+}
+
+fn pmsg(p: Box<dyn std::any::Any + Send>) -> String {
+    if let Some(s) = p.downcast_ref::<String>() { s.clone() } else if let Some(s) = p.downcast_ref::<&str>() { s.to_string() } else { "?".into() }
+}
+
+// verifier verdict through the public API: EbpfVm*::new(Some(prog)) and set_program(prog)
+fn load(req: &json::JsonValue) -> json::JsonValue {
+    let prog = unhex(req["prog"].as_str().unwrap_or(""));
+    let mut out = json::object! {};
+    let r = panic::catch_unwind(|| rbpf::EbpfVmRaw::new(Some(&prog)).map(|_| ()).map_err(|e| e.to_string()));
+    match r { Err(p) => { out["new"] = "panic".into(); out["msg"] = pmsg(p).into(); }
+              Ok(Err(m)) => { out["new"] = "err".into(); out["msg"] = m.into(); }
+              Ok(Ok(())) => { out["new"] = "ok".into(); } }
+    let r = panic::catch_unwind(|| { let mut vm = rbpf::EbpfVmMbuff::new(None).unwrap(); vm.set_program(&prog).map_err(|e| e.to_string()) });
+    match r { Err(p) => { out["set_program"] = "panic".into(); out["msg2"] = pmsg(p).into(); }
+              Ok(Err(m)) => { out["set_program"] = "err".into(); out["msg2"] = m.into(); }
+              Ok(Ok(())) => { out["set_program"] = "ok".into(); } }
+    out["status"] = "done".into();
+    out
+}
+
+pub fn dispatch(op: &str, req: &json::JsonValue) -> json::JsonValue {
+    match op {
+        "load" => load(req),
+        _ => json::object! { "status": "unknown_op", "op": op },
+    }
 }
